@@ -15,12 +15,18 @@ Pedersen stream (`drive-pedersen`; dealt shares are not observable, outputs only
   pval <v> <j:sk,..>                     -> x=<group secret> pk=1 | not_shamir | …
   reshare <t2> <sched>                   -> ok | err
   rval <v> <j:sk,..>                     -> x=<group secret> pk=1 same=b fresh=b
+frostp2p stream (`drive-frostp2p`; receive side of `dkg/frostp2p.go`, model `Model/FrostP2P.lean`):
+  p2pcer <n> <t> <vals> <seed>           -> ok | err      (ceremony over the real frostP2P; also enables val/rec/sig)
+  cb <n> <t> <vals> <self>               -> ok            (callbacks of one node only)
+  d <j> <c1|p|c2> <from> <variant>       -> q <queued so far> | dup | err <class>
+  fin                                    -> per node j:c1=[senders]#keys,p=[..]#keys,c2=[..]#keys
 -/
 import CharonV.Model.Fr
 import CharonV.Model.FrostGlue
+import CharonV.Model.FrostP2P
 import Driver.Common
 
-open CharonV.Fr CharonV.FrostGlue
+open CharonV.Fr CharonV.FrostGlue CharonV.FrostP2P
 
 namespace Driver.Frost
 
@@ -29,12 +35,20 @@ structure ValSt where
   shares : List (Nat × Nat)   -- node id ↦ secret share
   x      : Nat                -- group secret
 
+/-- receive-side state of one node (frostp2p stream). -/
+structure NodeSt where
+  id : Nat
+  c1 : Chan := {}
+  p  : Chan := {}
+  c2 : Chan := {}
+
 structure St where
   n    : Nat := 0
   t    : Nat := 0
   nv   : Nat := 0
   live : Bool := false
   vals : List ValSt := []
+  nodes : List NodeSt := []
 
 def b01 (b : Bool) : String := if b then "1" else "0"
 
@@ -135,8 +149,76 @@ def checkOut (n t : Nat) (sks : List (Nat × Nat)) : Except String Nat := do
   if !degreeLt t sks then throw "not_shamir"
   return lagrangeAt0 (sks.take t)
 
+/-- the message of the op `d j kind from variant` (must mirror `drive-frostp2p`): content of the
+genuine message of `from` (of member `j % n + 1` for a non-member sender), altered by `variant`. -/
+def mkMsg (n t nv j : Nat) (kind : String) (sender : Nat) (variant : String) : Option Msg :=
+  let src := if 1 ≤ sender && sender ≤ n then sender else j % n + 1
+  let tgt := if kind == "p" then j else 0
+  let commits := if kind == "c1" then t else 0
+  let base : List Entry := (List.range nv).map fun v => { key := ⟨v, src, tgt⟩, commits := commits }
+  let es : Option (List Entry) :=
+    match variant with
+    | "g" => some base
+    | "ws" => some (base.map fun e => { e with key := { e.key with sourceID := src % n + 1 } })
+    | "wt" => some (base.map fun e =>
+        { e with key := { e.key with targetID := if kind == "p" then j % n + 1 else j } })
+    | "wv" => some (base.dropLast ++ (base.drop (base.length - 1)).map fun e =>
+        { e with key := { e.key with valIdx := nv } })
+    | "wc" => some (match base with
+        | [] => []
+        | e :: rest => { e with commits := e.commits + 1 } :: rest)
+    | "fv" => some base.dropLast
+    | _ => none
+  es.map fun es => { sender := sender, entries := es, tag := 0 }
+
+def errStr : Err → String
+  | .unknownPeer => "unknown" | .source => "source" | .target => "target" | .val => "val" | .commit => "commit"
+
+def sendersStr (ms : List Msg) : String :=
+  s!"[{natsStr (sortNat (ms.map (·.sender)).eraseDups)}]#{(ms.map (·.entries.length)).foldl (· + ·) 0}"
+
 def step (s : St) (line : String) : St × String :=
   match line.splitOn " " with
+  | ["p2pcer", n, t, nv, _seed] =>
+    match n.toNat?, t.toNat?, nv.toNat? with
+    | some n, some t, some nv =>
+      if t < 2 || t > n || n < 2 || nv < 1 then ({ s with live := false, vals := [], nodes := [] }, "err")
+      else ({ n := n, t := t, nv := nv, live := true, vals := [],
+              nodes := (List.range n).map fun i => { id := i + 1 } }, "ok")
+    | _, _, _ => (s, "bad-op")
+  | ["cb", n, t, nv, self] =>
+    match n.toNat?, t.toNat?, nv.toNat?, self.toNat? with
+    | some n, some t, some nv, some self =>
+      ({ n := n, t := t, nv := nv, live := false, vals := [], nodes := [{ id := self }] }, "ok")
+    | _, _, _, _ => (s, "bad-op")
+  | ["d", j, kind, sender, variant] =>
+    match j.toNat?, sender.toNat? with
+    | some j, some sender =>
+      match s.nodes.find? (·.id == j), mkMsg s.n s.t s.nv j kind sender variant with
+      | some nd, some m =>
+        let cfg : Cfg := { n := s.n, t := s.t, nv := s.nv, self := j }
+        let (nd', res, qlen) : NodeSt × Res × Nat :=
+          match kind with
+          | "c1" => let r := bcastCb cfg (some s.t) nd.c1 m; ({ nd with c1 := r.1 }, r.2, r.1.queue.length)
+          | "c2" => let r := bcastCb cfg none nd.c2 m; ({ nd with c2 := r.1 }, r.2, r.1.queue.length)
+          | _ => let r := p2pCb cfg nd.p m; ({ nd with p := r.1 }, r.2, r.1.queue.length)
+        if kind != "c1" && kind != "c2" && kind != "p" then (s, "bad-op") else
+        let out := match res with
+          | .queued => s!"q {qlen}"
+          | .dup => "dup"
+          | .err e => "err " ++ errStr e
+        ({ s with nodes := s.nodes.map fun x => if x.id == j then nd' else x }, out)
+      | _, _ => (s, "bad-op")
+    | _, _ => (s, "bad-op")
+  | ["fin"] =>
+    let outs := s.nodes.map fun nd =>
+      let cfg : Cfg := { n := s.n, t := s.t, nv := s.nv, self := nd.id }
+      let evs := ((genCast1 cfg nd.id :: nd.c1.queue).map fun m => (true, m)) ++ nd.p.queue.map fun m => (false, m)
+      match collect1 s.n evs [] [], collect2 s.n (genCast2 cfg nd.id :: nd.c2.queue) with
+      | .done cs ps, some r2 => s!"{nd.id}:c1={sendersStr cs},p={sendersStr ps},c2={sendersStr r2}"
+      | .tooMany, _ => s!"{nd.id}:toomany"
+      | _, _ => s!"{nd.id}:wait"
+    (s, " ".intercalate outs)
   | ["ped", n, t, nv, _sched] =>
     match n.toNat?, t.toNat?, nv.toNat? with
     | some n, some t, some nv =>
